@@ -7,7 +7,7 @@
 // visible.  The history properties are its loop invariants and the assertions
 // after each call, so they hold after every prefix of every history of every
 // length, ill-formed events included.  The function is never executed.
-use crate::keys::{Layout, Mapping, KeyCode, Event, Repeat, layout_ok, mapping_ok};
+use crate::keys::{Layout, Mapping, KeyCode, Event, Repeat, layout_ok, mapping_ok, MappingV, RepeatV};
 use crate::key_transforms::*;
 
 pub enum Op { Ev(Event), ReleaseAll }
@@ -26,6 +26,18 @@ pub open spec fn justified_by_layout(l: Layout, phys: Set<KeyCode>, x: KeyCode) 
   exists|i: int| 0 <= i < l.mappings@.len() && (#[trigger] l.mappings@[i]).to@.contains(x) && (forall|f: KeyCode| l.mappings@[i].from@.contains(f) ==> phys.contains(f))
 }
 
+pub open spec fn no_absorbing(l: Layout) -> bool { forall|i: int| 0 <= i < l.mappings@.len() ==> (#[trigger] l.mappings@[i]).absorbing@.len() == 0 }
+
+// C03, statement level (layouts without absorbing mappings): what a step must do when key k goes down while the keys `pressed` are held
+pub open spec fn c03_statement(l: Layout, pressed: Seq<KeyCode>, mentioned: bool, k: KeyCode, evs: Seq<Event>, active: Seq<MappingV>, held: Set<KeyCode>) -> bool {
+  match layout_fired(l.mappings@, pressed, Set::<KeyCode>::empty(), k) {
+    // the last-listed mapping whose final trigger key is k and whose other trigger keys are all held takes effect ...
+    Some(mv) => active.len() >= 1 && active.last() == mv && fire_post(mv, evs, held),
+    // ... otherwise the key is passed through as the last event of the step, unless a mapping in effect mentions it
+    None => if mentioned { evs.len() == 0 } else { evs.len() >= 1 && evs.last() == Event::Pressed(k) && held.contains(k) },
+  }
+}
+
 pub proof fn lemma_empty_seq_of_subset(s: Seq<KeyCode>, p: Set<KeyCode>)
   requires forall|x: KeyCode| #[trigger] s.contains(x) ==> p.contains(x), p == Set::<KeyCode>::empty()
   ensures s.len() == 0
@@ -40,6 +52,7 @@ pub fn universal_client(layout: &Layout, ops: &Vec<Op>)
   let mut m = Mapper::for_layout(layout);
   let ghost mut phys: Set<KeyCode> = Set::empty();      // what is down on the physical keyboard
   let ghost mut out: Seq<Event> = Seq::empty();         // everything written to the virtual keyboard so far
+  let ghost mut ra_seen: bool = false;                    // a release-all has happened (afterwards physically held keys may be unknown to the mapper)
   proof { assert(apply(Set::<KeyCode>::empty(), out) == Some(m.held_view())); }
   let mut i: usize = 0;
   while i < ops.len()
@@ -47,6 +60,8 @@ pub fn universal_client(layout: &Layout, ops: &Vec<Op>)
       i <= ops.len(),
       m.inv(),
       m.grouped_from(*layout),
+      //@ C03 C05 | history fact (layouts without absorbing, no release-all so far): the mapper considers exactly the physically held keys pressed
+      (!ra_seen && no_absorbing(*layout)) ==> forall|x: KeyCode| phys.contains(x) ==> m.pressed_view().contains(x),
       //@ C19 | over histories: the concatenated output stream never presses a key that is down nor releases a key that is up, and folds to the mapper's own record
       apply(Set::<KeyCode>::empty(), out) == Some(m.held_view()),
       //@ C01 C02 | history fact: what the mapper considers pressed is physically pressed
@@ -55,17 +70,37 @@ pub fn universal_client(layout: &Layout, ops: &Vec<Op>)
       m.pressed_view().len() == 0 ==> m.held_view() == Set::<KeyCode>::empty(),
     decreases ops.len() - i
   {
-    let ghost out0 = out; let ghost phys0 = phys; let ghost held0 = m.held_view();
+    let ghost out0 = out; let ghost phys0 = phys; let ghost held0 = m.held_view(); let ghost m0 = m;
     match &ops[i] {
       Op::Ev(e) => {
         let e1 = match e { Event::Pressed(k) => Event::Pressed(*k), Event::Released(k) => Event::Released(*k) };
+        let ghost e1g = e1;
         let r = m.step(e1);
         proof {
           out = out0 + r.events@;
           phys = phys_after(phys0, ops@[i as int]);
           lemma_apply_append(Set::<KeyCode>::empty(), out0, r.events@);
+          if no_absorbing(*layout) {
+            match e1g { Event::Pressed(k) => { m0.lemma_no_absorbing(*layout, k); }, Event::Released(k) => { m0.lemma_no_absorbing(*layout, k); } }
+            //@ C03 | THEOREM C03 at this step (layout without absorbing mappings, any reachable state): the last-listed mapping whose final trigger key is the pressed key and whose other trigger keys are all held takes effect; its non-modifier outputs are pressed by events of this step, its modifier outputs are held, with normal repeat the whole output is held at the end of the step; if none qualifies the key is passed through as the last event unless a mapping in effect mentions it (then nothing is emitted)
+            match e1g { Event::Pressed(k) => { if !m0.pressed_view().contains(k) {
+                m0.lemma_gfired(*layout, k);
+                assert(c03_statement(*layout, m0.pressed_view(), m0.mentions(k), k, r.events@, m.active_view(), m.held_view()));
+              } }, _ => {} }
+          }
+          //@ C07 | THEOREM C07 at this step: if the mapping that fires has Disabled or Special repeat, afterwards every key held on the virtual keyboard is a modifier, and each non-modifier output key of the mapping was pressed by an event of this step
+          match e1g { Event::Pressed(k) => { if !m0.pressed_view().contains(k) {
+              m0.lemma_gfired(*layout, k);
+              match layout_fired(layout.mappings@, m0.pressed_view(), m0.eff_absorbed(k), k) {
+                Some(mv) => { if !(mv.repeat is Normal) {
+                    assert(forall|x: KeyCode| m.held_view().contains(x) ==> is_mod(x));
+                    assert(forall|o: KeyCode| #[trigger] mv.to.contains(o) && !is_mod(o) ==> r.events@.contains(Event::Pressed(o)));
+                  } },
+                None => {},
+              }
+            } }, _ => {} }
           //@ C02 | (c) a physical key release never causes a virtual key press
-          assert(e1 is Released ==> all_released(r.events@));
+          assert(e1g is Released ==> all_released(r.events@));
           //@ C07 C02 | a batch that only releases never makes a key held again
           assert(all_released(r.events@) ==> m.held_view().subset_of(held0)) by { if all_released(r.events@) { lemma_apply_only_releases(held0, r.events@); } }
         }
@@ -73,6 +108,7 @@ pub fn universal_client(layout: &Layout, ops: &Vec<Op>)
       Op::ReleaseAll => {
         let evs = m.release_all();
         proof {
+          ra_seen = true;
           out = out0 + evs@;
           lemma_apply_append(Set::<KeyCode>::empty(), out0, evs@);
           //@ C06 C12 | release-all: nothing is considered pressed, nothing is held, only releases are emitted
